@@ -250,3 +250,53 @@ func (r *Rng) mutate(v *Val) {
 		}
 	}
 }
+
+// UintSpec is PlainSpec with EVERY non-negative integer held by a basicnode.NewUint node (a UintNode
+// also has to behave as an int node for the values that fit int64).
+func UintSpec(v *Val) *NSpec {
+	switch v.Kind {
+	case KInt:
+		if v.I.Sign() >= 0 {
+			return &NSpec{Tag: 'u', V: v}
+		}
+	case KList:
+		s := &NSpec{Tag: 'a'}
+		for _, x := range v.L {
+			s.L = append(s.L, UintSpec(x))
+		}
+		return s
+	case KMap:
+		s := &NSpec{Tag: 'm'}
+		for _, e := range v.M {
+			s.K = append(s.K, e.K)
+			s.L = append(s.L, UintSpec(e.V))
+		}
+		return s
+	}
+	return PlainSpec(v)
+}
+
+// UintScript is DirectScript with every non-negative integer assigned as a UintNode.
+func UintScript(v *Val) []*Op {
+	switch v.Kind {
+	case KList:
+		ops := []*Op{{Code: "BL", Hint: int64(len(v.L))}}
+		for _, x := range v.L {
+			ops = append(ops, &Op{Code: "AV"})
+			ops = append(ops, UintScript(x)...)
+		}
+		return append(ops, &Op{Code: "FI"})
+	case KMap:
+		ops := []*Op{{Code: "BM", Hint: int64(len(v.M))}}
+		for _, e := range v.M {
+			ops = append(ops, &Op{Code: "AE", Key: e.K})
+			ops = append(ops, UintScript(e.V)...)
+		}
+		return append(ops, &Op{Code: "FI"})
+	case KInt:
+		if v.I.Sign() >= 0 {
+			return []*Op{{Code: "XN", N: UintSpec(v)}}
+		}
+	}
+	return DirectScript(v)
+}
